@@ -129,32 +129,39 @@ def parseDigits (base : Nat) (lead : Bool) (cs : List Char) : Option Nat :=
   | '_' :: r => if lead then go r 0 false false else none
   | _ => go cs 0 false false
 
+/-- optional sign of a numeric literal -/
+def intSign (cs : List Char) : Bool × List Char :=
+  match cs with
+  | '-' :: r => (true, r)
+  | '+' :: r => (false, r)
+  | r => (false, r)
+
+/-- base prefix `0x` / `0o` / `0b`, accepted when the base is that base or 0 -/
+def intPrefix (b : Nat) (cs : List Char) : Option (Nat × List Char) :=
+  match cs with
+  | '0' :: x :: r =>
+    if (x == 'x' || x == 'X') && (b == 16 || b == 0) then some (16, r)
+    else if (x == 'o' || x == 'O') && (b == 8 || b == 0) then some (8, r)
+    else if (x == 'b' || x == 'B') && (b == 2 || b == 0) then some (2, r)
+    else none
+  | _ => none
+
+/-- magnitude of an unsigned literal in base `b` (0 = by prefix, decimal without leading zeros) -/
+def intMag (b : Nat) (cs : List Char) : Option Nat :=
+  match intPrefix b cs with
+  | some (pb, r) => parseDigits pb true r
+  | none =>
+    if b == 0 then
+      match parseDigits 10 false cs with
+      | some n => (match cs with | '0' :: _ => if n == 0 then some 0 else none | _ => some n)
+      | none => none
+    else parseDigits b false cs
+
 /-- Python `int(s, base)`; `none` = `ValueError` -/
 def pyIntOfString (s : String) (base : Int) : Option Int :=
   if base ≠ 0 ∧ (base < 2 ∨ base > 36) then none else
-  let cs := (pyStrip s).toList
-  let (neg, cs) := match cs with
-    | '-' :: r => (true, r)
-    | '+' :: r => (false, r)
-    | r => (false, r)
-  let b := base.toNat
-  let prefixed : Option (Nat × List Char) := match cs with
-    | '0' :: x :: r =>
-      if (x == 'x' || x == 'X') && (b == 16 || b == 0) then some (16, r)
-      else if (x == 'o' || x == 'O') && (b == 8 || b == 0) then some (8, r)
-      else if (x == 'b' || x == 'B') && (b == 2 || b == 0) then some (2, r)
-      else none
-    | _ => none
-  let mag : Option Nat := match prefixed with
-    | some (pb, r) => parseDigits pb true r
-    | none =>
-      if b == 0 then
-        -- decimal literal: no leading zeros unless the value is zero
-        match parseDigits 10 false cs with
-        | some n => (match cs with | '0' :: _ => if n == 0 then some 0 else none | _ => some n)
-        | none => none
-      else parseDigits b false cs
-  mag.map (fun n => if neg then -(n : Int) else (n : Int))
+  let (neg, cs) := intSign (pyStrip s).toList
+  (intMag base.toNat cs).map (fun n => if neg then -(n : Int) else (n : Int))
 
 def lowerAscii (cs : List Char) : List Char :=
   cs.map (fun c => if 'A' ≤ c ∧ c ≤ 'Z' then Char.ofNat (c.toNat + 32) else c)
